@@ -2,11 +2,13 @@
 import random
 import numpy as np
 from harness import heap_corr as hc, circgen as cg, simops_corr as sc, map_oracle as mo
+from vcheck import gen_all, core
 
 THEOREMS = ['C08_init', 'C08_history_inv', 'C08_alloc_inv', 'C08_free_inv', 'C08_alloc_fresh', 'C08_free_live',
             'C08_live_disjoint', 'C08_high_water', 'C08_free_commute', 'C08_map_check_sound', 'C08_build_passes_certificate',
             'C08_certificate_needs_reads_defined', 'C08_build_passes_certificate_reuse', 'C08_build_total_reuse',
-            'C08_reuse_nonvacuous', 'C08_build_passes_certificate_all', 'C08_build_total_all', 'C08_all_options_nonvacuous', 'C08_option_hypotheses_checkable']
+            'C08_reuse_nonvacuous', 'C08_build_passes_certificate_all', 'C08_build_total_all', 'C08_all_options_nonvacuous', 'C08_option_hypotheses_checkable',
+            'C08_heap_source_is_model', 'C08_heap_source_exact', 'C08_heap_source_precondition_needed', 'C08_heap_source_nonvacuous']
 
 
 def gen_map_case(rng):
@@ -22,7 +24,16 @@ def gen_map_case(rng):
 
 
 def run(ck):
-    ck.prove('C08', THEOREMS)
+    # translation (tie T): Gen/HeapSrc.v is regenerated from the current text of class Heap; C08_heap_source_is_model then
+    # re-proves that the translated __init__ / alloc / free are the hand model the allocator theorems are stated on
+    res = gen_all.generate(['HeapSrc'])
+    ck.obligation('translate sim.Heap -> Gen/HeapSrc.v', res['HeapSrc'] is None, 'translation', res['HeapSrc'] or '')
+    ck.trust('translator translate/gen_heap.py (fail-closed Python-ast translation of Heap.__init__ / alloc / free into a state-passing '
+             'Gallina let-chain; vocabulary Model/HeapSrcLib.v: dict = sorted association list, bisect / insort on sorted lists, '
+             'Python integers that stay non-negative); its output is additionally run against the real class on every history')
+    proved, _ = ck.prove('C08', THEOREMS)
+    if not proved:
+        core.coq_make(core.support_targets())     # the models must exist for the correspondence even when a proof broke
     rng = random.Random(ck.seed * 7919 + 8)
     # --- allocator: random histories, full table after every step -------------------------------------
     cases, fails = [], []
@@ -43,6 +54,13 @@ def run(ck):
     ran = all(ok and cg.parse_nat_list(out) is not None for ok, out in outs)
     ck.obligation(f'Coq model of sim.Heap = implementation on {len(cases)} histories: returned location and full tables '
                   '(chunks, released, current_size, max_size) after every step', ran and not bad, 'correspondence', f'failing histories {bad[:8]}')
+    if res['HeapSrc'] is None:
+        outs = ck.coq_eval_many('heapsrc', [hc.cases_file_src(ch) for ch in chunks], jobs=12, timeout=1500)
+        bad_src = [ci * hsz + j for ci, (ok, out) in enumerate(outs) for j in ((cg.parse_nat_list(out) if ok else None) or [])]
+        ran = all(ok and cg.parse_nat_list(out) is not None for ok, out in outs)
+        ck.obligation(f'translated source Gen/HeapSrc.v = implementation on {len(cases)} histories: returned location and full tables '
+                      'after every step', ran and not bad_src, 'correspondence',
+                      f'failing histories {bad_src[:8]}' if ran else core.coq_first_error(outs[0][1]))
     # --- memory map of SimOps -----------------------------------------------------------------------
     so_cases, cert_circs = [], []
     for i in range(ck.scale(90, 2500)):
